@@ -10,7 +10,7 @@ fixpoint).  The property: nothing `Needed` is proposed for removal, and no file 
 source or as data is proposed for deletion.
 
 The code violates it in four ways (witnesses below, replayed on the real code from corpus/C25/known-*.ops);
-the partial theorems say exactly what does hold: without `gc_sibling` labels nothing reachable from an initial
+the partial theorems say exactly what does hold: nothing reachable from an initial
 root is proposed for removal (with `--conservative` that is all of `Needed`), and no SOURCE file of a kept target
 is proposed for deletion.
 -/
@@ -21,31 +21,31 @@ open PlzVerif.GC
 command-line targets, test pass, keepSrcs, removal test, sorting), `addTarget`, `publicDependencies`, `gcSibling`,
 `isIncluded`, with parameters named by position and locals by order of declaration. -/
 def FactsOK : Bool :=
-  PlzVerif.Generated.C25.passes == 
+  PlzVerif.Generated.C25.passes ==
     ["range GRAPH.AllTargets() { if (v01.IsBinary && (!v01.IsTest() || INCLUDETESTS)) || v01.HasAnyLabel(KEEPLABELS) || anyInclude(NAMED, v01.Label) || v01.Label.Subrepo != \"\" { addTarget(GRAPH, KEEP, v01) } }",
      "range GRAPH.PackageMap() { for _, v02 := range v01.Subincludes { addTarget(GRAPH, KEEP, GRAPH.TargetOrDie(v02)) } }",
      "range ARGS { if v01.IsAllSubpackages() { for _, v02 := range GRAPH.PackageMap() { if v02.IsIncludedIn(v01) { for _, v01 := range v02.AllTargets() { addTarget(GRAPH, KEEP, v01) } } } } else { addTarget(GRAPH, KEEP, GRAPH.Target(v01)) } }",
      "if !INCLUDETESTS { for _, v01 := range GRAPH.AllTargets() { if v01.IsTest() { for _, v02 := range publicDependencies(GRAPH, v01) { if KEEP[v02] && !v02.TestOnly { addTarget(GRAPH, KEEP, v01) } else if v02.TestOnly { addTarget(GRAPH, KEEP, v02) } } } } }",
      "range KEEP { for _, v02 := range v01.AllLocalSourcePaths() { KEEPSRCS[v02] = true } }",
-     "range GRAPH.AllTargets() { if v02 := gcSibling(GRAPH, v01); !v02.HasParent() && !KEEP[v02] && isIncluded(v02, FILTER) { RET = append(RET, v01.Label) for _, v03 := range v01.AllLocalSourcePaths() { if !KEEPSRCS[v03] { RETSRCS = append(RETSRCS, v03) } } } }",
+     "range GRAPH.AllTargets() { if v02 := gcSibling(GRAPH, v01); !v02.HasParent() && !KEEP[v02] && !KEEP[v01] && isIncluded(v02, FILTER) { RET = append(RET, v01.Label) for _, v03 := range v01.AllLocalSourcePaths() { if !KEEPSRCS[v03] { RETSRCS = append(RETSRCS, v03) } } } }",
      "sort.Sort(RET)",
      "sort.Strings(RETSRCS)",
      "return RET, RETSRCS"] &&
-  PlzVerif.Generated.C25.addTarget == 
+  PlzVerif.Generated.C25.addTarget ==
     ["if M[T] || T == nil { return }",
      "M[T] = true",
      "for _, v01 := range T.DeclaredDependencies() { addTarget(GRAPH, M, GRAPH.Target(v01)) }",
      "for _, v01 := range T.Dependencies() { addTarget(GRAPH, M, v01) }",
      "if T.Subrepo != nil && T.Subrepo.Target != nil { addTarget(GRAPH, M, T.Subrepo.Target) }"] &&
-  PlzVerif.Generated.C25.publicDependencies == 
+  PlzVerif.Generated.C25.publicDependencies ==
     ["v01 := []*core.BuildTarget{}",
      "for _, v02 := range T.DeclaredDependencies() { if v03 := GRAPH.Target(v02); v03 != nil { if v03.Label.Parent() == T.Label.Parent() { v01 = append(v01, publicDependencies(GRAPH, v03)...) } else { v01 = append(v01, v03) } } }",
      "if T.Subrepo != nil && T.Subrepo.Target != nil { v01 = append(v01, T.Subrepo.Target) }",
      "return v01"] &&
-  PlzVerif.Generated.C25.gcSibling == 
+  PlzVerif.Generated.C25.gcSibling ==
     ["for _, v01 := range T.PrefixedLabels(\"gc_sibling:\") { if v02 := GRAPH.Target(core.NewBuildLabel(T.Label.PackageName, v01)); v02 != nil { return v02 } }",
      "return T"] &&
-  PlzVerif.Generated.C25.isIncluded == 
+  PlzVerif.Generated.C25.isIncluded ==
     ["if len(FILTER) == 0 { return true }",
      "for _, v01 := range FILTER { if v01.Includes(T.Label) { return true } }",
      "return false"]
@@ -90,10 +90,11 @@ theorem reach_snoc {G : Graph} {r a b : Nat} (p : Reach G r a) (e : Dep G a b) :
 
 /-! ## what holds -/
 
-/-- Partial (holds for every graph without `gc_sibling` labels): nothing that an initial root (binary, kept label,
-named, subinclude, command-line target) transitively depends on is proposed for removal. -/
-theorem C25_targets_partial (G : Graph) (Q : Query) (ts fs : List Nat) (h : targetsToRemove G Q = some (ts, fs))
-    (hs : ∀ t, G.sibs t = []) : ∀ t ∈ ts, ¬ ∃ r, Root0 G Q r ∧ Reach G r t := by
+/-- Partial (holds for every graph, `gc_sibling` labels included since the repair of `gc-sibling-overrides-keep`):
+nothing that an initial root (binary, kept label, named, subinclude, command-line target) transitively depends on is
+proposed for removal. -/
+theorem C25_targets_partial (G : Graph) (Q : Query) (ts fs : List Nat) (h : targetsToRemove G Q = some (ts, fs)) :
+    ∀ t ∈ ts, ¬ ∃ r, Root0 G Q r ∧ Reach G r t := by
   unfold targetsToRemove at h
   simp only at h
   split at h
@@ -104,15 +105,15 @@ theorem C25_targets_partial (G : Graph) (Q : Query) (ts fs : List Nat) (h : targ
     rintro t ht ⟨r, hr, p⟩
     have hk := keepSet_reach G Q (by simpa using ho) r t hr p
     unfold removeTargets at ht
-    exact removable_not_kept (hs t) (List.mem_filter.mp ht).2 hk
+    exact removable_not_kept (List.mem_filter.mp ht).2 hk
 
 /-- With `--conservative` the test rule is void, so the partial theorem is the full statement:
-without `gc_sibling` labels no needed target is proposed for removal. -/
+no needed target is proposed for removal. -/
 theorem C25_targets_conservative_partial (G : Graph) (Q : Query) (ts fs : List Nat)
-    (h : targetsToRemove G Q = some (ts, fs)) (hs : ∀ t, G.sibs t = []) (hc : Q.includeTests = true) :
+    (h : targetsToRemove G Q = some (ts, fs)) (hc : Q.includeTests = true) :
     ∀ t ∈ ts, ¬ Needed G Q t := by
   intro t ht hn
-  apply C25_targets_partial G Q ts fs h hs t ht
+  apply C25_targets_partial G Q ts fs h t ht
   clear ht
   induction hn with
   | root hr => exact ⟨_, hr, .refl _⟩
@@ -149,15 +150,13 @@ def noB : Nat → Bool := fun _ => false
 def noL : Nat → List Nat := fun _ => []
 def Q0 : Query := { filter := [], args := [], named := [], subincs := [], includeTests := false }
 
-/-- witness 1 (known finding `gc-sibling-overrides-keep`): binary `bin` depends on `lib`, which carries the label
-`gc_sibling:unused`; `unused` is needed by nobody, so `lib` shares its fate. -/
+/-- the shape of the repaired finding `gc-sibling-overrides-keep` (fixed): binary `bin` depends on `lib`, which carries
+the label `gc_sibling:unused`; only the unused sibling goes. -/
 def gS : Graph := { nodes := [0, 1, 2], decl := fun | 0 => [1] | _ => [], res := fun | 0 => [1] | _ => [],
                      isBinary := fun | 0 => true | _ => false, isTest := noB, testOnly := noB, keepLabel := noB, hasParent := noB,
                      pl := id, sibs := fun | 1 => [2] | _ => [], srcs := noL, data := noL }
 
-theorem C25_witness_sibling : ∃ ts fs, targetsToRemove gS Q0 = some (ts, fs) ∧ 1 ∈ ts ∧ Needed gS Q0 1 :=
-  ⟨[1, 2], [], by decide, by decide,
-    .dep (a := 0) (.root (Or.inl ⟨by decide, by decide⟩)) (Or.inl (by decide))⟩
+example : targetsToRemove gS Q0 = some ([2], []) := by decide
 
 /-- witness 2 (known finding `gc-test-of-later-kept-target`): `a_test` tests `lib1`; `lib1` is needed only because
 `z_test` (a test of the needed `klib`) also depends on it.  Tests are examined once, in label order, so `a_test` is
@@ -178,8 +177,8 @@ theorem C25_witness_test_order : ∃ ts fs, targetsToRemove gT Q0 = some (ts, fs
 /-- The property (part 1) does not hold. -/
 theorem C25_not_safe_targets : ¬ SafeTargets := by
   intro h
-  obtain ⟨ts, fs, he, hm, hn⟩ := C25_witness_sibling
-  exact h gS Q0 ts fs he 1 hm hn
+  obtain ⟨ts, fs, he, hm, hn⟩ := C25_witness_test_order
+  exact h gT Q0 ts fs he 3 hm hn
 
 /-- witness 3 (known finding `gc-rule-of-needed-subtarget-removed`): `bin` uses `_gen#out` directly; the rule `gen`
 itself is needed by nobody and is proposed for removal — and `_gen#out` disappears with it. -/
